@@ -230,6 +230,18 @@ def campaign(c):
         im, mo = progdiff.run_both(c, srcb)
         progdiff.compare(c, srcb, im, mo, 'diag-stability')
         c.case(('diagstab', bad), dict(kind='diag-stability', stmt=bad))
+    # every reference shape (module / class / function / constant / variable in every position of a path or member chain): the
+    # message printed for it may not contain anything that changes from run to run (addresses, hash order)
+    from .C08 import REFSHAPES, REF_PRELUDE
+    for shape in REFSHAPES + ['ipv4::IpFrag::tail(0);', 'ipv4::tcp::TcpFlow::open();', 'io::BufIO::read(1);', 'ipv4::datagram::x;', 'text::CRLF::x;', 'eth::frame::y();', 'ipv4::tcp::flow::z;']:
+        srcb = (REF_PRELUDE + shape + '\n').encode()
+        outs = set()
+        for k in range(3):
+            res, per, rc, err = run_at({'d': srcb}, ['d'], ENVS[k % len(ENVS)], None, 'o')
+            outs.add((rc, tuple(re.sub(r'\S*/(\w+\.(?:rsyn|pcap))', r'\1', l) for l in per['__all__']), res['d'], 'panicked' in err))
+        if len(outs) != 1:
+            c.violation('det:diagnostics-vary', 'reference shape `%s`: %d different outcomes/diagnostics over 3 runs: %s' % (shape, len(outs), sorted(str(o[1])[:140] for o in outs)[:2]), dict(src=srcb.decode()))
+        c.case(('refdiag', shape), None)
     # the output must not depend on what was at the output path before: longer stale file, same-stem batch
     d = tempfile.mkdtemp(prefix='rso')
     try:
